@@ -89,14 +89,16 @@ fn main() {
                 "feemult" => smallstreams::feemult(&mut r, count, thorough, &mut out),
                 "confirm" => smallstreams::confirm(&mut r, count, thorough, &mut out),
                 "merkle" => smallstreams::merkle(&mut r, count, thorough, &mut out),
-                "apply" | "seal" | "chain" | "mint" | "hostile" | "cov" => {
+                "apply" | "seal" | "chain" | "mint" | "hostile" | "cov" | "stake" | "faucet" => {
                     let em = match stream {
-                        "apply" => statestream::Emphasis { mutate: 300, pool_ops: 6, stake_ops: 8, mint_ops: 8, batches: 0, blocks: 2, chain_ops: false, twins: 2 },
-                        "cov" => statestream::Emphasis { mutate: 250, pool_ops: 1, stake_ops: 1, mint_ops: 0, batches: 4, blocks: 3, chain_ops: false, twins: 6 },
-                        "hostile" => statestream::Emphasis { mutate: 800, pool_ops: 12, stake_ops: 6, mint_ops: 6, batches: 2, blocks: 3, chain_ops: false, twins: 2 },
-                        "mint" => statestream::Emphasis { mutate: 60, pool_ops: 2, stake_ops: 1, mint_ops: 70, batches: 4, blocks: 3, chain_ops: false, twins: 2 },
-                        "seal" => statestream::Emphasis { mutate: 80, pool_ops: 30, stake_ops: 2, mint_ops: 2, batches: 5, blocks: 3, chain_ops: false, twins: 2 },
-                        _ => statestream::Emphasis { mutate: 100, pool_ops: 10, stake_ops: 6, mint_ops: 4, batches: 0, blocks: 4, chain_ops: true, twins: 2 },
+                        "apply" => statestream::Emphasis { mutate: 300, pool_ops: 6, stake_ops: 8, mint_ops: 8, batches: 0, blocks: 2, chain_ops: false, twins: 2, epoch_edges: 0, faucets: 8 },
+                        "cov" => statestream::Emphasis { mutate: 250, pool_ops: 1, stake_ops: 1, mint_ops: 0, batches: 4, blocks: 3, chain_ops: false, twins: 6, epoch_edges: 0, faucets: 8 },
+                        "stake" => statestream::Emphasis { mutate: 100, pool_ops: 1, stake_ops: 60, mint_ops: 0, batches: 3, blocks: 3, chain_ops: false, twins: 2, epoch_edges: 6, faucets: 8 },
+                        "faucet" => statestream::Emphasis { mutate: 150, pool_ops: 2, stake_ops: 1, mint_ops: 0, batches: 3, blocks: 3, chain_ops: false, twins: 2, epoch_edges: 0, faucets: 60 },
+                        "hostile" => statestream::Emphasis { mutate: 800, pool_ops: 12, stake_ops: 6, mint_ops: 6, batches: 2, blocks: 3, chain_ops: false, twins: 2, epoch_edges: 0, faucets: 8 },
+                        "mint" => statestream::Emphasis { mutate: 60, pool_ops: 2, stake_ops: 1, mint_ops: 70, batches: 4, blocks: 3, chain_ops: false, twins: 2, epoch_edges: 0, faucets: 8 },
+                        "seal" => statestream::Emphasis { mutate: 80, pool_ops: 30, stake_ops: 2, mint_ops: 2, batches: 5, blocks: 3, chain_ops: false, twins: 2, epoch_edges: 0, faucets: 8 },
+                        _ => statestream::Emphasis { mutate: 100, pool_ops: 10, stake_ops: 6, mint_ops: 4, batches: 0, blocks: 4, chain_ops: true, twins: 2, epoch_edges: 0, faucets: 8 },
                     };
                     let stats = statestream::run(&mut r, count, &em, &mut out);
                     let js: Vec<String> = stats.iter().map(|(k, v)| format!("\"{}\":{}", k, v)).collect();
